@@ -419,7 +419,7 @@ class WorkerPool:
         with self._lock:
             self._active -= 1
 
-            if self._closed:
+            if self._closed or self._max_idle == 0:
                 self._discards += 1
                 transport.close()
                 return
